@@ -180,6 +180,9 @@ def anchored_files(prop_id):
     return []
 
 
+COVERAGE_ACTIVE = False
+
+
 def start_source_coverage(prop_id, tier):
     """
     Measures which statements / branches of the property's anchored source files the run executes
@@ -193,6 +196,8 @@ def start_source_coverage(prop_id, tier):
         import coverage
         cov = coverage.Coverage(include=[os.path.join(repo_root(), "menelaus", "*")], branch=True, data_file=None)
         cov.start()
+        global COVERAGE_ACTIVE
+        COVERAGE_ACTIVE = True
         return cov
     except Exception:
         return None
